@@ -44,7 +44,9 @@ Wheres5 == {<<>>} \cup {<< <<c>> >> : c \in Cmps5}
 ListOrders5 ==
   {[list |-> <<Star>>, order |-> o] :
       o \in {<<>>, <<Ord("", "a", "asc")>>, <<Ord("", "a", "desc")>>, <<Ord("", "s", "asc"), Ord("", "a", "desc")>>,
-             <<Ord("", "c", "desc"), Ord("", "s", "asc")>>, <<Ord("t5", "g", "desc")>>}}
+             <<Ord("", "c", "desc"), Ord("", "s", "asc")>>, <<Ord("t5", "g", "desc")>>,
+             \* a key listed twice, then a key of the other direction
+             <<Ord("", "c", "asc"), Ord("", "c", "asc"), Ord("", "a", "desc")>>, <<Ord("", "g", "desc"), Ord("t5", "g", "desc"), Ord("", "a", "asc")>>}}
   \cup {[list |-> <<ColItem("", "a", "")>>, order |-> o] : o \in {<<>>, <<Ord("", "a", "desc")>>}}
   \cup {[list |-> <<ColItem("", "s", ""), ColItem("", "a", "")>>, order |-> o] : o \in {<<>>, <<Ord("", "s", "desc"), Ord("", "a", "asc")>>}}
   \cup {[list |-> <<ColItem("", "a", "x"), ColItem("t5", "s", "")>>, order |-> o] : o \in {<<>>, <<Ord("", "x", "asc")>>, <<Ord("", "s", "desc")>>}}
@@ -87,6 +89,11 @@ Froms6 == {<<From1("l", ""), [tbl |-> "r", alias |-> "", jt |-> jt, on |-> on]>>
                    j1 \in JTs, j2 \in JTs, on \in {<< <<Cmp(Col("l", "k"), "=", Col("r", "k"))>> >>}, on2 \in OnZ}
 \* aliases: the alias replaces the table name; the same table twice under two aliases
 \* the same identifier on both sides: a table joined to itself without aliases, an alias that repeats the other table's name
+\* an unqualified name that exists on both sides, in an operand of ON that an earlier operand may already have decided
+\* (AND after a false comparison, OR after a true one): it must be refused all the same
+FromsAmbOn6 == {<<From1("l", ""), [tbl |-> "r", alias |-> "", jt |-> jt, on |-> on]>> : jt \in JTs,
+                   on \in { << <<Cmp(Col("l", "id"), "=", Col("r", "y")), Cmp(Col("", "k"), "=", Lit(IntV(1)))>> >>,
+                            << <<Cmp(Col("l", "id"), "<", Col("r", "y"))>>, <<Cmp(Col("", "k"), "=", Lit(IntV(1)))>> >> }}
 FromsSame6 == {<<From1("l", ""), [tbl |-> "l", alias |-> "", jt |-> jt, on |-> << <<Cmp(Lit(IntV(1)), "=", Lit(IntV(1)))>> >>]>> : jt \in JTs}
               \cup {<<From1("l", ""), [tbl |-> "r", alias |-> "l", jt |-> "inner", on |-> << <<Cmp(Col("", "id"), "=", Lit(IntV(2)))>> >>]>>}
 ListsSame6 == {<<Star>>, <<ColItem("", "id", "")>>, <<ColItem("l", "k", ""), ColItem("", "x", "")>>, <<ColItem("", "w", "")>>}
@@ -145,7 +152,7 @@ Wheres7 == {<<>>, << <<Cmp(Col("", "m"), "<", Lit(IntV(100)))>> >>, << <<Cmp(Col
 Out(name, S) == PrintT(<<"SCN", ToJson([set |-> name, elems |-> SetToSeq(S)])>>)
 ASSUME /\ Out("tables5", Tables5) /\ Out("wheres5", Wheres5) /\ Out("listorders5", ListOrders5) /\ Out("limoffs", LimOffs)
        /\ Out("dbs6", Dbs6) /\ Out("froms6", Froms6) /\ Out("fromsalias6", FromsAlias6) /\ Out("lists6", Lists6)
-       /\ Out("listsalias6", ListsAlias6) /\ Out("wheres6", Wheres6) /\ Out("fromssame6", FromsSame6) /\ Out("listssame6", ListsSame6)
+       /\ Out("listsalias6", ListsAlias6) /\ Out("wheres6", Wheres6) /\ Out("fromssame6", FromsSame6) /\ Out("fromsambon6", FromsAmbOn6) /\ Out("listssame6", ListsSame6)
        /\ Out("tables7", Tables7) /\ Out("listgroups7", ListGroups7) /\ Out("wheres7", Wheres7)
        /\ Out("joinlistgroups7", JoinListGroups7) /\ Out("fromself7", {FromSelf7})
 Init == x = 0
